@@ -49,3 +49,189 @@ Theorem decode_offset_refuted :
   exists w r, 0 < w_step w /\ centre2 w (snd (crop_range w r ACenter None)) - 2 * en r > 2 * w_step w.
 Proof. exists (mkWin 4 4 4 None), (66, 68). vm_compute. split; reflexivity. Qed.
 
+
+(* ---- the matrix Annotation.discretize assembles ---- *)
+From PV Require Import Proofs.SupportP Proofs.DictP Proofs.AnnotationInvP Proofs.AnnCropInterP Proofs.RangesP.
+
+Section Matrix.
+Variable eps : Z.
+Hypothesis Heps : 0 <= eps.
+
+(* entry (frame f, label l) as the code computes it *)
+Definition dval (c1 : ann) (w : win) (n : Z) (l : name) (f : Z) : Z :=
+  if existsb (fun r => in_slice n (Z.max 0 (fst r)) (Z.max 0 (Z.min (snd r) n)) f)
+             (crop_ranges_tl eps w (c_segs (snd (label_timeline eps c1 l))) ACenter)
+  then 1 else 0.
+
+(* shape of the result: window at the support start, columns per label (labels() of the cropped
+   annotation unless given), frame count from `duration` or from the support *)
+Theorem discretize_shape a support rdur rstep labs duration d :
+  discretize eps a support rdur rstep labs duration = Some d ->
+  let sup := match support with Some s => s | None => extent_l (tl_of eps (map fst (a_tracks a))) end in
+  let cropped := crop_ann eps a (SupSeg sup) Inter in
+  let c1 := fst (labels eps cropped) in
+  win_make rdur rstep (st sup) None = Some (d_win d) /\
+  d_frames d = match duration with
+               | None => closest_frame (d_win d) (en sup) - closest_frame (d_win d) (st sup)
+               | Some x => rhe x rstep
+               end /\
+  0 <= d_frames d /\
+  d_labels d = match labs with Some l => l | None => snd (labels eps cropped) end /\
+  d_cols d = map (fun l => map (dval c1 (d_win d) (d_frames d) l) (zrange 0 (d_frames d))) (d_labels d).
+Proof.
+  unfold discretize, discretize_gen. cbv zeta.
+  destruct (labels eps (crop_ann eps a (SupSeg match support with Some s => s | None => extent_l (tl_of eps (map fst (a_tracks a))) end) Inter)) as [c1 clabs] eqn:EL.
+  destruct (win_make rdur rstep _ None) as [w|] eqn:EW; [|discriminate].
+  destruct (_ <? 0) eqn:En; [discriminate|]. intro H. inversion H; subst d. cbn [d_win d_frames d_labels d_cols fst snd].
+  split; [reflexivity|]. split; [reflexivity|]. split; [lia|]. split; reflexivity.
+Qed.
+
+Lemma in_slice_clipped n a b f : 0 <= f < n ->
+  in_slice n (Z.max 0 a) (Z.max 0 (Z.min b n)) f = true <-> a <= f < b.
+Proof.
+  intro H. unfold in_slice, py_slice_bounds.
+  replace (Z.max 0 a <? 0) with false by lia. replace (Z.max 0 (Z.min b n) <? 0) with false by lia. lia.
+Qed.
+
+(* an entry is 1 exactly when the frame lies in the centre-mode range of a segment of the label's
+   support *)
+Theorem dval_spec c1 w n l f : AInv eps c1 -> 0 < w_step w -> 0 <= f < n ->
+  (dval c1 w n l f = 1 <->
+   exists s, In s (support eps 0 (lab_tl eps (a_tracks c1) l)) /\ in_r (crop_range w s ACenter None) f) /\
+  (dval c1 w n l f = 0 \/ dval c1 w n l f = 1).
+Proof.
+  intros I Hs Hf. unfold dval.
+  pose proof (label_timeline_spec eps c1 l I) as HT. destruct (label_timeline eps c1 l) as [a2 c]. destruct HT as [_ [_ [G _]]].
+  cbn [snd]. rewrite G.
+  destruct (crop_ranges_tl_spec eps w (lab_tl eps (a_tracks c1) l) ACenter Heps Hs (wf_tl_of _ _)) as [A _].
+  rewrite <- (A f). unfold cov.
+  destruct (existsb _ _) eqn:E.
+  - split; [|now right]. split; [intros _ | reflexivity]. apply existsb_exists in E as [r [Hr Hk]]. exists r. split; [exact Hr|].
+    now apply (in_slice_clipped n (fst r) (snd r) f Hf).
+  - split; [|now left]. split; [discriminate|]. intros [r [Hr Hk]]. exfalso.
+    assert (existsb (fun r => in_slice n (Z.max 0 (fst r)) (Z.max 0 (Z.min (snd r) n)) f)
+              (crop_ranges_tl eps w (lab_tl eps (a_tracks c1) l) ACenter) = true); [|congruence].
+    apply existsb_exists. exists r. split; [exact Hr|]. now apply (in_slice_clipped n (fst r) (snd r) f Hf).
+Qed.
+
+(* the centre rule on the matrix itself *)
+Theorem dval_one_inside c1 w n l f s : AInv eps c1 -> 0 < w_step w -> 0 <= f < n ->
+  In s (support eps 0 (lab_tl eps (a_tracks c1) l)) ->
+  2 * (st s + w_step w) <= centre2 w f <= 2 * (en s - w_step w) -> dval c1 w n l f = 1.
+Proof.
+  intros I Hs Hf Hin Hc. apply (dval_spec c1 w n l f I Hs Hf). exists s. split; [exact Hin|].
+  apply (centre_inside_in_range w Hs s f Hc).
+Qed.
+Theorem dval_zero_outside c1 w n l f : AInv eps c1 -> 0 < w_step w -> 0 <= f < n ->
+  (forall s, In s (support eps 0 (lab_tl eps (a_tracks c1) l)) ->
+             centre2 w f <= 2 * (st s - w_step w) \/ 2 * (en s + w_step w) <= centre2 w f) ->
+  dval c1 w n l f = 0.
+Proof.
+  intros I Hs Hf Hall. destruct (dval_spec c1 w n l f I Hs Hf) as [A [B|B]]; [exact B|]. exfalso.
+  apply A in B as [s [Hin Hk]]. apply (centre_outside_not_in_range w Hs s f (Hall s Hin)). exact Hk.
+Qed.
+
+(* the annotation the entries are computed from satisfies the invariant *)
+Lemma discretize_source_inv a sup : AInv eps a -> AInv eps (fst (labels eps (crop_ann eps a (SupSeg sup) Inter))).
+Proof.
+  intro I. destruct (crop_inter_entries eps Heps a (SupSeg sup) I) as [J _].
+  pose proof (labels_spec eps _ J) as HL. destruct (labels eps (crop_ann eps a (SupSeg sup) Inter)) as [c1 L]. cbn [fst]. tauto.
+Qed.
+
+(* frame count without `duration`: within one frame of (support duration) / step *)
+Theorem frames_within_one w t0 t1 : 0 < w_step w ->
+  Z.abs ((closest_frame w t1 - closest_frame w t0) * w_step w - (t1 - t0)) <= w_step w.
+Proof.
+  intro Hs. pose proof (cf_bounds w Hs t0) as A. pose proof (cf_bounds w Hs t1) as B. cbv zeta in A, B. lia.
+Qed.
+End Matrix.
+
+(* ---- the matrix one_hot_encoding assembles ---- *)
+Section OneHot.
+Variable eps : Z.
+Hypothesis Heps : 0 <= eps.
+
+Definition hit (n f : Z) (r : Z * Z) : bool := (clampn n (fst r) <=? f) && (f <? clampn n (snd r)).
+Definition oval (known rs : list (Z * Z)) (n f : Z) : Z :=
+  let base := if existsb (hit n f) known then 0 else -1 in
+  Z.min 1 (base + Z.of_nat (List.length (filter (hit n f) rs))).
+
+Lemma hit_iff n f r : 0 <= f < n -> (hit n f r = true <-> in_r r f).
+Proof. intro H. unfold hit, clampn, in_r. lia. Qed.
+Lemma existsb_hit n f rs : 0 <= f < n -> (existsb (hit n f) rs = true <-> cov rs f).
+Proof.
+  intro H. rewrite existsb_exists. unfold cov. split; intros [r [Hr Hk]]; exists r; (split; [exact Hr|]); now apply (hit_iff n f r H).
+Qed.
+Lemma count_hit n f rs : 0 <= f < n ->
+  (Z.of_nat (List.length (filter (hit n f) rs)) = 0 <-> ~ cov rs f) /\ 0 <= Z.of_nat (List.length (filter (hit n f) rs)).
+Proof.
+  intro H. split; [|lia]. split.
+  - intros E [r [Hr Hk]]. assert (In r (filter (hit n f) rs)) as Hin by (apply filter_In; split; [exact Hr | now apply hit_iff]).
+    destruct (filter (hit n f) rs); [destruct Hin | cbn [List.length] in E; lia].
+  - intro Hn. destruct (filter (hit n f) rs) as [|r q] eqn:E; [reflexivity|]. exfalso. apply Hn.
+    assert (In r (filter (hit n f) rs)) as Hin by (rewrite E; now left). apply filter_In in Hin as [Hr Hk].
+    exists r. split; [exact Hr | now apply (hit_iff n f r H)].
+Qed.
+
+(* -1 outside the support (when the label ranges lie within the support's), otherwise 1 / 0 by
+   membership in a label range; several same-label ranges saturate at 1 *)
+Theorem oval_spec known rs n f : 0 <= f < n ->
+  (~ cov known f -> (forall k, cov rs k -> cov known k) -> oval known rs n f = -1) /\
+  (cov known f -> cov rs f -> oval known rs n f = 1) /\
+  (cov known f -> ~ cov rs f -> oval known rs n f = 0).
+Proof.
+  intro H. unfold oval. destruct (count_hit n f rs H) as [C0 Cp]. pose proof (existsb_hit n f known H) as K.
+  destruct (existsb (hit n f) known) eqn:E.
+  - assert (Kc : cov known f) by now apply K. split; [tauto|]. split.
+    + intros _ Hr. assert (Z.of_nat (List.length (filter (hit n f) rs)) <> 0) by tauto. lia.
+    + intros _ Hr. rewrite (proj2 C0 Hr). reflexivity.
+  - assert (Kc : ~ cov known f) by (intro X; apply K in X; congruence). split; [|tauto].
+    intros _ Hsub. assert (~ cov rs f) by (intro X; apply Kc, Hsub, X). rewrite (proj2 C0 H0). reflexivity.
+Qed.
+
+Definition onehot_col (a1 : ann) (alabs : list name) (w : win) (n : Z) (sup_l : list seg) (l : name) : list Z :=
+  let known := crop_ranges_tl eps w sup_l ACenter in
+  let rs := if name_in l alabs then crop_ranges_tl eps w (c_segs (snd (label_timeline eps a1 l))) ACenter else [] in
+  map (oval known rs n) (zrange 0 n).
+
+Theorem one_hot_shape a support wdur wstep labs d :
+  one_hot_encoding eps a support wdur wstep labs = Some d ->
+  let extent := match support with SupSeg s => s | SupTl l => extent_l l end in
+  let sup_l := match support with SupSeg s => tl_of eps [s] | SupTl l => l end in
+  win_make wdur wstep (st extent) None = Some (d_win d) /\
+  d_frames d = samples (d_win d) (duration eps extent) ACenter /\
+  d_labels d = match labs with Some l => l | None => snd (labels eps a) end /\
+  (forall l, In l (snd (labels eps a)) -> name_in l (d_labels d) = true) /\
+  d_cols d = map (onehot_col (fst (labels eps a)) (snd (labels eps a)) (d_win d) (d_frames d) sup_l) (d_labels d).
+Proof.
+  unfold one_hot_encoding. cbv zeta.
+  destruct (win_make wdur wstep _ None) as [w|] eqn:EW; [|discriminate].
+  destruct (labels eps a) as [a1 alabs] eqn:EL. cbn [fst snd].
+  destruct (negb (forallb _ alabs)) eqn:EF; [discriminate|]. intro H. inversion H; subst d.
+  cbn [d_win d_frames d_labels d_cols]. split; [reflexivity|]. split; [reflexivity|]. split; [reflexivity|]. split; [|reflexivity].
+  apply negb_false_iff in EF. rewrite forallb_forall in EF. exact EF.
+Qed.
+(* refusal: an explicit label list that misses a label of the annotation *)
+Theorem one_hot_refuses a support wdur wstep L l :
+  In l (snd (labels eps a)) -> name_in l L = false -> one_hot_encoding eps a support wdur wstep (Some L) = None.
+Proof.
+  intros Hin Hn. unfold one_hot_encoding. cbv zeta. destruct (win_make wdur wstep _ None); [|reflexivity].
+  destruct (labels eps a) as [a1 alabs]. cbn [snd] in Hin.
+  replace (forallb (fun l0 => name_in l0 L) alabs) with false; [reflexivity|].
+  symmetry. apply not_true_is_false. intro F. rewrite forallb_forall in F. specialize (F l Hin). congruence.
+Qed.
+
+(* label ranges lie within the support's ranges when the label's segments lie within support segments *)
+Theorem label_ranges_within_support w sup_l segs : 0 < w_step w -> wf eps sup_l -> wf eps segs ->
+  (forall s, In s (support eps 0 segs) -> exists S, In S (support eps 0 sup_l) /\ st S <= st s /\ en s <= en S) ->
+  forall k, cov (crop_ranges_tl eps w segs ACenter) k -> cov (crop_ranges_tl eps w sup_l ACenter) k.
+Proof.
+  intros Hs W1 W2 Hin k Hk.
+  destruct (crop_ranges_tl_spec eps w segs ACenter Heps Hs W2) as [A _].
+  destruct (crop_ranges_tl_spec eps w sup_l ACenter Heps Hs W1) as [B _].
+  apply A in Hk as [s [Is Hk]]. apply B. destruct (Hin s Is) as [S [IS [L1 L2]]]. exists S. split; [exact IS|].
+  assert (M1 : closest_frame w (st S) <= closest_frame w (st s)) by (unfold closest_frame; apply rhe_mono; lia).
+  assert (M2 : closest_frame w (en s) <= closest_frame w (en S)) by (unfold closest_frame; apply rhe_mono; lia).
+  unfold in_r in *. cbn [crop_range fst snd] in *. lia.
+Qed.
+End OneHot.
